@@ -29,7 +29,7 @@ class Prop(BaseProp):
     HEADLINE = ["pages_parsed", "entries_checked", "doc_ids_contained", "bodies_generated", "bodies_discarded"]
 
     def n_cases(self, tier):
-        return 500 if tier == "quick" else 8000
+        return 2500 if tier == "quick" else 30000
 
     def setup_worker(self):
         runner.cminx()
